@@ -153,6 +153,29 @@ impl Exec {
         }
     }
 
+    /// Poll once more after the final result. What such a poll returns is unspecified (many
+    /// combinators assert), but no child may be polled by it.
+    pub fn repoll(&mut self) {
+        if self.cut.is_none() || !self.finished {
+            return;
+        }
+        let (g, wk) = world::new_parent();
+        with(|w| w.ev(format_args!("{{\"e\":\"repoll\",\"g\":{}}}", g)));
+        self.cur = Some((g, wk.clone()));
+        let cut = self.cut.as_mut().unwrap();
+        let res = catch_unwind(AssertUnwindSafe(|| {
+            let mut cx = Context::from_waker(&wk);
+            cut.poll(&mut cx)
+        }));
+        match res {
+            Ok(r) => with(|w| w.ev(format_args!("{{\"e\":\"reret\",\"r\":\"{}\"}}", r.r))),
+            Err(_) => {
+                with(|w| w.ev(format_args!("{{\"e\":\"panic\",\"at\":\"repoll\"}}")));
+                self.drop_cut();
+            }
+        }
+    }
+
     pub fn drop_cut(&mut self) {
         if let Some(cut) = self.cut.take() {
             with(|w| w.ev(format_args!("{{\"e\":\"drop\"}}")));
@@ -449,6 +472,7 @@ pub fn run_vector(v: &Vector) -> String {
                 }
             }
             "run" => ex.run(),
+            "repoll" => ex.repoll(),
             "settle" => ex.settle(false),
             "settle_all" => ex.settle(true),
             "drop" => ex.drop_cut(),
